@@ -553,4 +553,60 @@ theorem lowerOrder_raised (tol : K) (htol : 0 < tol) (p a : ℕ) (hp : 2 ≤ p) 
 
 end Lower
 
+/-! ## Every separated sorted knot list has the form `expand u m` -/
+
+/-- Run-length encoding exists: a knot list in which neighbours are either exactly equal or more
+    than `tol` apart is `expand u m` with `u` separated and all multiplicities positive. -/
+theorem exists_expand (tol : K) (h0 : 0 ≤ tol) : ∀ (l : List K),
+    (∀ i (h : i + 1 < l.length), l[i] = l[i+1] ∨ l[i] + tol < l[i+1]) →
+    ∃ (u : List K) (m : List ℕ), l = expand u m ∧ u.length = m.length ∧ Separated tol u ∧
+      (∀ j ∈ m, 1 ≤ j) ∧ (∀ x, l.head? = some x → u.head? = some x) := by
+  intro l
+  induction l with
+  | nil => intro _; exact ⟨[], [], rfl, rfl, List.Pairwise.nil, by simp, by simp⟩
+  | cons x l ih =>
+    intro h
+    have hl : ∀ i (hi : i + 1 < l.length), l[i] = l[i+1] ∨ l[i] + tol < l[i+1] := by
+      intro i hi
+      have := h (i + 1) (by simp; omega)
+      simpa using this
+    obtain ⟨u, m, hlu, hlen, hsep, hm, hhead⟩ := ih hl
+    cases l with
+    | nil =>
+      exact ⟨[x], [1], by simp [expand], rfl, by simp [Separated], by simp, by simp⟩
+    | cons y l' =>
+      have hy : u.head? = some y := hhead y rfl
+      cases u with
+      | nil => simp at hy
+      | cons y' u' =>
+        have hyy : y' = y := by simpa using hy
+        subst hyy
+        cases m with
+        | nil => simp at hlen
+        | cons k m' =>
+          have h01 := h 0 (by simp)
+          simp only [List.getElem_cons_zero, Nat.zero_add, List.getElem_cons_succ] at h01
+          rcases h01 with heq | hlt
+          · -- x = y: one more copy in the first group
+            subst heq
+            refine ⟨x :: u', (k + 1) :: m', ?_, by simpa using hlen, hsep, ?_, by simp⟩
+            · rw [hlu]; simp [List.replicate_succ]
+            · intro j hj
+              rcases List.mem_cons.mp hj with rfl | hj
+              · omega
+              · exact hm j (List.mem_cons_of_mem _ hj)
+          · -- a new distinct knot in front
+            refine ⟨x :: y' :: u', 1 :: k :: m', ?_, by simpa using hlen, ?_, ?_, by simp⟩
+            · rw [hlu]; simp [List.replicate_succ]
+            · refine List.pairwise_cons.mpr ⟨?_, hsep⟩
+              intro z hz
+              rcases List.mem_cons.mp hz with rfl | hz
+              · exact hlt
+              · have := List.rel_of_pairwise_cons hsep hz
+                linarith
+            · intro j hj
+              rcases List.mem_cons.mp hj with rfl | hj
+              · exact le_rfl
+              · exact hm j hj
+
 end Splipy
